@@ -108,7 +108,8 @@ fn relate(rep: &mut Report, what: &str, key: &str, x: Result<Vec<(&'static str, 
 pub fn replay(args: &Args) {
     let cases = read_ndjson(args.req("in"));
     let mut rep = Report::new(args.get("prop").unwrap_or("C08"), args.req("out"));
-    for v in &cases {
+    for v in cases {
+        let v = &v;
         match get_str(v, "op") {
             "agg" => {
                 let s = get_ints(v, "s");
